@@ -1818,14 +1818,14 @@ def run(ctx):
         "entry_points": [r.name for r in results if r.repeatable],
         "not_covered": {r.name: ("updates attributes of its object (lazy cache / fit / setter)" if r.classification == "pure" else r.classification)
                         for r in results if r.kind == "obligation" and not r.repeatable}}
-    ctx.extra["programs"] = {"entry_points": len(results), "instructions": sum(len(r.prog.instrs) for r in results),
+    ctx.extra["ir_programs"] = {"entry_points": len(results), "instructions": sum(len(r.prog.instrs) for r in results),
                              "allocation_sites": sum(r.sol["nObj"] - 1 for r in results)}
     ctx.extra["unknown_calls"] = sorted(tr.unknown_calls)
     # what the generated obligation `expected_obligations_present` is about (empty on the unchanged tree)
     policy = py2ir.load_policy()
     problems = py2ir.translation_problems(_STATE["project"], results, policy)
     ctx.extra["translation_problems"] = problems
-    ctx.extra["obligations"] = {"committed_list": len(policy["expected_obligations"]),
+    ctx.extra["expected_obligation_names"] = {"committed_list": len(policy["expected_obligations"]),
                                 "generated_not_in_committed_list": sorted({n for r in results for n in r.obligation_names()}
                                                                           - set(policy["expected_obligations"]))}
     if problems:
